@@ -41,6 +41,9 @@ def bases(seed):
                     k += 100
                     sc = scen.gen(seed * 1000 + k, rev=rev, files=files, continuous=cont, nsteps=6, kills=False, layout="sparse", land=False,
                                   speed=0.25, subgrid="none", numrec=0, period=2, late_release=True)
+                if files == 3 and cont:
+                    # every forcing file counts its time from its own reference: the frames are when they are, however they are counted
+                    sc["own_time_reference"] = True
                 out.append(sc)
     return out
 
@@ -119,7 +122,8 @@ def apply_fault(sc, fault, d):
         for k, ts in enumerate(parts):
             lab.make_grid_forcing(d / f"forcing_{k:03d}.nc", ts, imax=sc["imax"], jmax=sc["jmax"], N=sc["N"], h=np.array(sc["h"]),
                                   mask=np.array(sc["mask"]), dx=np.array(sc["dx"]), scal=dict(temp=lambda t, kk, j, i: 0.0 * kk) if sc["scalars"] else None,
-                                  w=(lambda t, kk, j, i: 0.0 * kk) if sc["vertadv"] else None)
+                                  w=(lambda t, kk, j, i: 0.0 * kk) if sc["vertadv"] else None,
+                                  time_ref_s=(ts[0] - 17 - 3600 * k) if sc.get("own_time_reference") else None)
             ftimes.append(ts)
     else:
         for members in (files if not sc["rev"] else files[::-1]):
